@@ -6,9 +6,17 @@
                                                does not determine Go's behaviour
     jsonset-encode  {"policies": [[id,p],…]} → canonical tree of `PolicySet.MarshalJSON`
     jsonset-decode  {"doc"}                  → `ok id=<policy>;…` sorted by id
+    c09-cross       {"policy": p, "chain": "J"|"T"}  → the MODEL's cross-format pipeline, every stage rendered canonically:
+                      chain J:  p →json→ q1 →text→ q2 →json→ q3 →text→ q4     `j=<q1> t=<q2> j=<q3> t=<q4>`
+                      chain T:  p →text→ r1 →json→ r2 →text→ r3               `t=<r1> j=<r2> t=<r3>`
+                    →json→ = `fromJ ∘ toJ` (Policy.MarshalJSON, UnmarshalJSON), →text→ = `parsePolicy ∘ pieceToks ∘ marshalPolicy`
+                    (Policy.MarshalCedar, UnmarshalCedar); a refused stage is `err` and ends the chain; `skip` when a
+                    policy to be written as text is outside the modelled domain of the marshaller (`policyModelled`)
 -/
 import CedarGo.Driver.Ops.C13
 import CedarGo.Model.Json.Policy
+import CedarGo.Model.Text.Marshal
+import CedarGo.Model.Text.Parser
 namespace CedarGo.Driver
 open Lean CedarGo CedarGo.JsonModel
 
@@ -106,8 +114,41 @@ def opJsonSetEncode : Handler := fun _ j => do
 def opJsonSetDecode : Handler := fun _ j => do
   showRC13 showSetC09 (setFromJ (← parseDocC13 j))
 
+/-- one stage of a cross-format chain: `.ok none` = the stage refused its input (`err`) -/
+def jsonStageC09 (p : Policy) : D (Option Policy) :=
+  match fromJ (toJ (canonPolicyLitsC09 p)) with
+  | .ok q => .ok (some q)
+  | .error .reject => .ok none
+  | .error .panic => .error "model-panic"
+  | .error .unmodelled => .error "tree-does-not-determine"
+
+def textStageC09 (p : Policy) : D (Option Policy) :=
+  if !Text.policyModelled p then .error "unmodelled-policy" else
+  match Text.parsePolicy (Text.pieceToks (Text.marshalPolicy p)) with
+  | none => .error "fuel"
+  | some (.error _) => .ok none
+  | some (.ok q) => .ok (some q)
+
+/-- run the stages in order; the rendering stops after the first refused stage -/
+def runChainC09 : List (Bool × String) → Policy → String → D String
+  | [], _, acc => .ok acc
+  | (isJson, label) :: rest, p, acc => do
+    let r ← if isJson then jsonStageC09 p else textStageC09 p
+    let sep := if acc.isEmpty then "" else " "
+    match r with
+    | none => .ok (acc ++ sep ++ label ++ "=err")
+    | some q => runChainC09 rest q (acc ++ sep ++ label ++ "=" ++ showPolicyC09 q)
+
+def opCrossC09 : Handler := fun _ j => do
+  let p ← decPolicy (← field j "policy")
+  if !(p.conditions.all fun c => validPatternsC09 c.2) then .error "invalid-utf8-pattern" else
+  let chain ← jStr (← field j "chain")
+  if chain == "J" then runChainC09 [(true, "j"), (false, "t"), (true, "j"), (false, "t")] p ""
+  else if chain == "T" then runChainC09 [(false, "t"), (true, "j"), (false, "t")] p ""
+  else .error "bad chain"
+
 def c09Ops : List (String × Handler) :=
   [("json-encode", opJsonEncode), ("json-decode", opJsonDecode),
-   ("jsonset-encode", opJsonSetEncode), ("jsonset-decode", opJsonSetDecode)]
+   ("jsonset-encode", opJsonSetEncode), ("jsonset-decode", opJsonSetDecode), ("c09-cross", opCrossC09)]
 
 end CedarGo.Driver
